@@ -45,7 +45,7 @@ def wrappers(ctx, ld):
                 ok = ok and pseudo(c.args[-1]) == it
         run.check(ok, 'WRAP', where(repo, lp), pr.qualname, ', '.join('%s=%s' % (k.split('.')[1], v) for k, v in sorted(flags.items())),
                   'wrappers applied %s but options say %s' % (applied, want), path=p.describe())
-    run.floor('WRAP', n, 8, 'option valuations')
+    run.floor('WRAP', n, 2, 'option valuations')
     # order: missing values are extracted before casting (they would fail the cast), stripping after
     order = [c.func.attr for c in ast.walk(lp) if isinstance(c, ast.Call) and isinstance(c.func, ast.Attribute)
              and c.func.attr in list(opts.values()) + ['caster']]
